@@ -94,12 +94,13 @@ func (vc *FuncVC) execBlock(b *ssa.BasicBlock) {
 			}
 			c := vc.fresh("iface", SInt)
 			vc.assume(Ne(c, IntLit(0)))
+			if tag := ifaceTag(ins.X.Type()); tag != 0 {
+				vc.ifaceDecls()
+				vc.assume(Eq(app(SInt, "uf_iftype", c), IntLit(tag)))
+			}
 			if isString(ins.X.Type()) {
 				// the string an interface value holds (istr(x) in contracts)
-				if !vc.declared["uf_ifstr"] {
-					vc.declared["uf_ifstr"] = true
-					vc.decls = append(vc.decls, "(declare-fun uf_ifstr (Int) Int)")
-				}
+				vc.ifaceDecls()
 				vc.assume(Eq(app(SInt, "uf_ifstr", c), vc.scalar(ins.X)))
 			}
 			vc.vals[ins] = &Val{T: c, GoType: ins.Type()}
@@ -143,6 +144,30 @@ func (vc *FuncVC) execBlock(b *ssa.BasicBlock) {
 			// unreachable assertion discharges.
 			if !ins.CommaOk {
 				vc.oblige("S", fmt.Sprintf("type-assert#%d", vc.ord("type-assert")), reach, TFalse, vc.propTags("C04"), ins.Pos(), "x.(T) without comma-ok panics when the dynamic type differs (dynamic types are not modelled)")
+			}
+			if ins.CommaOk {
+				if tag := ifaceTag(ins.AssertedType); tag != 0 {
+					// v, ok := x.(T) for string, []byte, int64: ok iff the dynamic type is T (a tag on the interface value),
+					// and then v is what the interface holds
+					vc.ifaceDecls()
+					x := vc.scalar(ins.X)
+					okT := Eq(app(SInt, "uf_iftype", x), IntLit(tag))
+					var v *Val
+					switch tag {
+					case 1:
+						v = vc.freshVal("tassert", ins.AssertedType)
+						vc.assume(Implies(okT, Eq(v.T, app(SInt, "uf_ifstr", x))))
+					case 2:
+						v = vc.freshVal("tassert", ins.AssertedType)
+						vc.assume(Implies(okT, And(Eq(v.Elems[0].T, app(SInt, "uf_ifbp", x)), Eq(v.Elems[1].T, app(SInt, "uf_ifbn", x)))))
+						// the bytes lie in memory allocated before (the interface value was made before)
+						vc.assume(Implies(okT, And(Lt(IntLit(0), v.Elems[0].T), Le(Add(v.Elems[0].T, vc.capOf(v)), st.cnt))))
+					default:
+						v = vc.freshVal("tassert", ins.AssertedType)
+					}
+					vc.vals[ins] = &Val{Kind: vTuple, Elems: []*Val{v, {T: okT, GoType: types.Typ[types.Bool]}}, GoType: ins.Type()}
+					break
+				}
 			}
 			vc.note("type assertion modelled as unconstrained (any value of the asserted type, any ok) at %s", vc.pos(ins.Pos()))
 			vc.vals[ins] = vc.freshVal("tassert", ins.Type())
@@ -508,6 +533,38 @@ func (vc *FuncVC) execUnOp(st *State, reach Term, ins *ssa.UnOp) {
 func isFloat(t types.Type) bool {
 	b, ok := t.Underlying().(*types.Basic)
 	return ok && b.Info()&(types.IsFloat|types.IsComplex) != 0
+}
+
+// ifaceTag: the dynamic-type tag of the types a type switch of this package distinguishes (0: not modelled)
+func ifaceTag(t types.Type) int64 {
+	if _, named := t.(*types.Named); named {
+		return 0
+	}
+	switch u := t.Underlying().(type) {
+	case *types.Basic:
+		switch {
+		case u.Info()&types.IsString != 0:
+			return 1
+		case u.Kind() == types.Int64:
+			return 3
+		case u.Kind() == types.Float64:
+			return 4
+		}
+	case *types.Slice:
+		if b, ok := u.Elem().Underlying().(*types.Basic); ok && b.Kind() == types.Uint8 {
+			return 2
+		}
+	}
+	return 0
+}
+
+func (c *Ctx) ifaceDecls() {
+	for _, d := range [][2]string{{"uf_iftype", "(Int) Int"}, {"uf_ifstr", "(Int) Int"}, {"uf_ifbp", "(Int) Int"}, {"uf_ifbn", "(Int) Int"}} {
+		if !c.declared[d[0]] {
+			c.declared[d[0]] = true
+			c.decls = append(c.decls, "(declare-fun "+d[0]+" "+d[1]+")")
+		}
+	}
 }
 
 func isString(t types.Type) bool {
